@@ -1,6 +1,7 @@
 package c01
 
 import (
+	"fmt"
 	"bytes"
 	"compress/gzip"
 	"strings"
@@ -105,6 +106,7 @@ var reqHeaderPool = []hdrChoice{
 	{[]lab.KV{{"x-lower-case", "v"}}, "odd-case"},
 	{[]lab.KV{{"X-MiXeD-cAsE", "V"}}, "odd-case"},
 	{[]lab.KV{{"X-Long", strings.Repeat("v", 8192)}}, "long-value"},
+	{[]lab.KV{{"X-Token-A", strings.Repeat("a", 12000)}, {"X-Token-B", strings.Repeat("b", 12000)}, {"X-Token-C", strings.Repeat("c", 12000)}}, "header-block>16KiB"},
 	{[]lab.KV{{"Accept-Encoding", "identity"}}, "accept-encoding"},
 	{[]lab.KV{{"Accept-Encoding", "gzip"}}, "accept-encoding"},
 	{[]lab.KV{{"Accept-Encoding", "br"}}, "accept-encoding"},
@@ -146,12 +148,23 @@ var respHeaderPool = []hdrChoice{
 	{[]lab.KV{{"Keep-Alive", "timeout=5"}}, "connection"},
 	{[]lab.KV{{"X-Empty-Resp", ""}}, "empty-value"},
 	{[]lab.KV{{"X-Long-Resp", strings.Repeat("r", 8192)}}, "long-value"},
+	// header blocks well beyond 16 KiB / 64 KiB (two dozen large cookies, a long policy): still far below net/http's own 1 MiB / 10 MiB defaults
+	{bigCookies(24, 1000), "header-block>16KiB"},
+	{[]lab.KV{{"Content-Security-Policy", strings.TrimSpace(strings.Repeat("default-src 'self' https://cdn.example.com; ", 1800))}}, "header-block>64KiB"},
 	{[]lab.KV{{"Content-Language", "en"}}, ""},
 	{[]lab.KV{{"Access-Control-Allow-Origin", "*"}}, ""},
 	{[]lab.KV{{"X-Content-Type-Options", "nosniff"}}, ""},
 	{[]lab.KV{{"Last-Modified", "Tue, 15 Nov 1994 08:12:31 GMT"}}, ""},
 	{[]lab.KV{{"WWW-Authenticate", "Basic realm=\"x\""}}, ""},
 	{[]lab.KV{{"Retry-After", "3"}}, ""},
+}
+
+func bigCookies(n, size int) []lab.KV {
+	var out []lab.KV
+	for i := 0; i < n; i++ {
+		out = append(out, lab.KV{K: "Set-Cookie", V: fmt.Sprintf("c%d=%s; Path=/", i, strings.Repeat(string(rune('a'+i%26)), size))})
+	}
+	return out
 }
 
 var statuses = []int{200, 200, 200, 201, 202, 204, 206, 301, 302, 304, 400, 404, 418, 429, 500, 502, 503}
